@@ -229,6 +229,20 @@ Theorem C16_leaf_is_kernel : forall f s k,
 Proof. exact leaf_is_kernel. Qed.
 Print Assumptions C16_leaf_is_kernel.
 
+(* re-entrancy: whatever bridged calls run while the arguments of a call are
+   being converted, that call reaches Go after them and with exactly its own
+   argument values (in the model; the correspondence run checks otto against it) *)
+Theorem C16_reentrant_args_intact : forall f fn args,
+  exists before, ev_call (S f) (RCall fn args) = before ++ [(fn, map rarg_val args)].
+Proof. exact reentrant_args_intact. Qed.
+Print Assumptions C16_reentrant_args_intact.
+
+Theorem C16_reentrant_inner_first : forall f fn pre inner v post,
+  exists a b, ev_call (S f) (RCall fn (pre ++ RRe inner v :: post)) =
+              a ++ flat_map (ev_call f) inner ++ b ++ [(fn, map rarg_val (pre ++ RRe inner v :: post))].
+Proof. exact reentrant_inner_first. Qed.
+Print Assumptions C16_reentrant_inner_first.
+
 (* non-vacuity of the implications above *)
 Example C16_exact_hyp_met :
   src_wf (KF64, 4617315517961601024) = true /\
@@ -255,3 +269,6 @@ Example C16_elementwise_hyp_met :
   CV (GVSlice [GVI KI8 1; GVI KI8 0; GVI KI8 2]) /\
   call false false 4 [TNum KU8; TStr] false [JNum (KI64, 5); JStr [97]] = CV (GVStruct [GVI KU8 5; GVStr [97]]).
 Proof. vm_compute. split; reflexivity. Qed.
+Example C16_reentrant_example :
+  ev_call 4 (RCall 0 [RVal 1; RRe [RCall 0 [RVal 2; RVal 7]] 8]) = [(0, [2; 7]); (0, [1; 8])].
+Proof. reflexivity. Qed.
